@@ -36,6 +36,18 @@ def unknowns(rnd):
                                            T.T_leaf("CODE", "1"), T.T_CLOSE]),
         # unknown data whose text looks like a format template
         ("unknown-leaf-template-text", [T.T_leaf("ZZNOTE", rnd.choice(['{"tier": 3}', "page {0} of {1}", "see section 3}", "{", "%s and %d", "{cls}", "100%"]))]),
+        # a tag that names a model class the enclosing aggregate does not define, with content invalid for that class:
+        # it is unknown HERE and skipped like any other unknown tag (never converted first)
+        ("known-elsewhere-aggregate-empty", [T.T_open(rnd.choice(["STMTTRN", "BANKACCTFROM", "SONRS", "INVPOS"])), T.T_CLOSE]),
+        ("known-elsewhere-aggregate-incomplete", [T.T_open("BANKACCTFROM"), T.T_leaf("BANKID", "1"), T.T_CLOSE]),
+        ("known-elsewhere-aggregate-bad-value", [T.T_open("LEDGERBAL"), T.T_leaf("BALAMT", "not a number"), T.T_leaf("DTASOF", "yesterday"), T.T_CLOSE]),
+        ("known-elsewhere-aggregate-disordered", [T.T_open("CURRENCY"), T.T_leaf("CURSYM", "USD"), T.T_leaf("CURRATE", "1.5"), T.T_leaf("CURSYM", "EUR"), T.T_CLOSE]),
+        # long names (SGML NAMELEN is not a limit of OFX), names with several dots
+        ("unknown-leaf-long-name", [T.T_leaf("Z" * rnd.choice([31, 32, 33, 40, 64]), "1")]),
+        ("unknown-aggregate-long-name", [T.T_open("ZZ" + "LONGNAME" * rnd.choice([4, 5, 8])), T.T_leaf("ZZLEAF", "x"), T.T_CLOSE]),
+        ("vendor-aggregate-long-name", [T.T_open("INTU." + "X" * rnd.choice([27, 28, 40])), T.T_leaf("INTU.A", "1"), T.T_CLOSE]),
+        ("vendor-leaf-two-dots", [T.T_leaf(rnd.choice(["INTU.ACCT.ID", "COM.INTUIT.BID", "A.B.C.D"]), "7")]),
+        ("vendor-aggregate-two-dots", [T.T_open("INTU.EXT.V2"), T.T_leaf("INTU.A.B", "1"), T.T_CLOSE]),
         # an unknown element named like an element that is open around it / like itself
         ("unknown-nested-same-tag", [T.T_open("ZZSAME"), T.T_open("ZZSAME"), T.T_leaf("ZZLEAF", "x"), T.T_CLOSE, T.T_CLOSE]),
     ]
@@ -89,7 +101,7 @@ def run(ctx):
         for p in pos:
             enc = enclosing(base, p)
             kinds = unknowns(rnd)
-            kinds = rnd.sample(kinds, 4 if quick else 3)
+            kinds = rnd.sample(kinds, 6 if quick else 4)
             for kind, toks in kinds:
                 # a tag "known elsewhere" must not be defined by the enclosing aggregate
                 if enc is not None and any(t["tag"] in {a["tag"] for a in schema.get(enc, {"attrs": []})["attrs"]}
